@@ -271,6 +271,15 @@ def _register_y_cells():
                         faulty=lambda: list(sp().split(bad)), sig={})
         cell("split/" + m, "malformed_y", "entry_splitter")(split_cell)
 
+        def tts_y_cell(ctx, m=m):
+            from sktime.forecasting.model_selection import temporal_train_test_split
+            bad = malform_y(m, ctx.y_train, ctx.rng)
+            by_fh = ctx.rng.random() < 0.5
+            kw = {"fh": list(ctx.steps)} if by_fh else {"test_size": 3}
+            return dict(control=lambda: temporal_train_test_split(ctx.y_train, **kw),
+                        faulty=lambda: temporal_train_test_split(bad, **kw), sig={"by_fh": by_fh})
+        cell("tts/" + m, "malformed_y", "entry_tts")(tts_y_cell)
+
 
 def _k(spec):
     return spec["kind"] if spec["kind"] != "reduce" else "reduce-" + spec["strategy"]
